@@ -13,12 +13,16 @@ graph evaluation).
     (wf seg assets ((uid rank)*))      -> (ok wf assetsOK)
     (all seg assets (uid*) ((uid rank)*)) -> (all <compile> <run|skip> <eval> <dfs> <wf> <spec>)
        <spec> ::= (describes linked)  compiled table == specTable up to order (false when compile fails); linked
+    (all seg assets (uid*) ((uid rank)*) (val*)) -> (all ... <spec> (reruns ((key val)*) ((key val)*)))
+       the compiled table executed again on the store its first execution left (`storeSeq 1`), and once more after an
+       external commit replaced the previous generation by the given states; `(reruns)` without accessor / on failure
 -/
 import ForML.Model.Sexp
 import ForML.Model.SymbolsSexp
 import ForML.Model.Compile
 import ForML.Model.GraphEval
 import ForML.Model.CompileSpec
+import ForML.Model.Rerun
 open ForML ForML.Flow
 
 def bool? : Sexp → Option Bool
@@ -109,6 +113,20 @@ def dfsOut (g : Segment) : Sexp := .list [.atom "ok", Sexp.ofNats g.visitOrder]
 def wfOut (g : Segment) (A : Option Assets) (rank : Uid → Nat) : Sexp :=
   .list [.atom "ok", Sexp.ofBool (g.wf rank), Sexp.ofBool (g.assetsOK A)]
 
+def valsOut (m : Memo) : Sexp :=
+  match Memo.toSexp m with
+  | .list [vals, _] => vals
+  | _ => .list []
+
+def rerunOut (g : Segment) (A : Option Assets) (o : List Uid) (ext : List Val) : Sexp :=
+  match compile g A o, A with
+  | .ok t, some As =>
+    if !acyclicTable t then .list [.atom "reruns"] else
+    let A2 := storeSeq A t 1
+    let A3 : Option Assets := some { As with prev := ext }
+    .list [.atom "reruns", valsOut (run A2 t), valsOut (run A3 t)]
+  | _, _ => .list [.atom "reruns"]
+
 def stepC01 : Sexp → Sexp
   | .list [.atom "compile", seg, assets, order] =>
     match segment? seg, Assets.ofSexp? assets, order.natList? with
@@ -130,6 +148,13 @@ def stepC01 : Sexp → Sexp
     match segment? seg, Assets.ofSexp? assets, rank? rk with
     | some g, some A, some r => wfOut g A r
     | _, _, _ => .atom "bad-op"
+  | .list [.atom "all", seg, assets, order, rk, .list ext] =>
+    match segment? seg, Assets.ofSexp? assets, order.natList?, rank? rk, ext.mapM Val.ofSexp? with
+    | some g, some A, some o, some r, some ext =>
+      match stepC01 (.list [.atom "all", seg, assets, order, rk]) with
+      | .list items => .list (items ++ [rerunOut g A o ext])
+      | x => x
+    | _, _, _, _, _ => .atom "bad-op"
   | .list [.atom "all", seg, assets, order, rk] =>
     match segment? seg, Assets.ofSexp? assets, order.natList?, rank? rk with
     | some g, some A, some o, some r =>
